@@ -315,6 +315,37 @@ func fioC03Fixed(r *Rand, thorough bool) []*fioProg {
 			objs: []pdf.Object{small(), small()}})
 		progs = append(progs, p)
 	}
+	// (e) stream objects (and plain objects next to them) under references with
+	// non-zero generation, in table and xref-stream files, short and long data
+	for _, v := range []pdf.Version{pdf.V1_3, pdf.V1_7} {
+		for _, seekable := range []bool{true, false} {
+			p := mk(v, seekable)
+			for i := 0; i < 9; i++ {
+				p.ops = append(p.ops, fioOp{kind: 'A', same: -1}) // 2..10
+			}
+			gens := []uint16{1, 2, 65535}
+			long := make([]byte, 1500)
+			for i := range long {
+				long[i] = byte('a' + i%26)
+			}
+			for i, g := range gens {
+				n := uint32(2 + 3*i)
+				data := []byte("short stream")
+				if i == 1 {
+					data = long
+				}
+				p.ops = append(p.ops, fioOp{kind: 'S', same: -1, userLen: -1, ref: pdf.NewReference(n, g), dict: pdf.Dict{"K": pdf.Integer(i)}, data: data})
+				p.ops = append(p.ops, fioOp{kind: 'P', same: -1, ref: pdf.NewReference(n+1, g), obj: small()})
+				p.ops = append(p.ops, fioOp{kind: 'O', same: -1, userLen: -1, ref: pdf.NewReference(n+2, gens[(i+1)%3]), dict: pdf.Dict{"T": pdf.Name("x")}})
+				if i == 0 {
+					p.ops = append(p.ops, fioOp{kind: 'W', data: long})
+				}
+				p.ops = append(p.ops, fioOp{kind: 'W', data: []byte("tail")})
+				p.ops = append(p.ops, fioOp{kind: 'C'})
+			}
+			progs = append(progs, p)
+		}
+	}
 	// (d) many uncompressed objects of irregular sizes
 	sizes := []int{50, 300, 1000, 4000}
 	for _, n := range sizes {
